@@ -113,6 +113,7 @@ pub fn run(args: &Args) {
         let cfg = GenCfg { sheets: &sheets, allow: &allow, w: W, h: H, wide: false };
         let mut placed: Vec<Placed> = vec![];
         let mut names: Vec<NameRec> = vec![];
+        let mut charts: Vec<(usize, Vec<Ast>)> = vec![];
         let mut hist: Vec<String> = vec![];
         let setup = guard(|| {
             for _ in 0..rng.range(3, 8) {
@@ -145,6 +146,33 @@ pub fn run(args: &Args) {
                 let ast = Ast::Ref(r);
                 let _ = book.get_sheet_mut(&si).unwrap().add_defined_name(name.clone(), render(&ast));
                 names.push(NameRec { sheet: si, name, ast });
+            }
+            // chart series (always sheet-qualified absolute ranges, as Excel writes them); the chart itself sits far away
+            if rng.chance(1, 3) {
+                let si = rng.below(sheets.len() as u64) as usize;
+                let mut series: Vec<Ast> = vec![];
+                for _ in 0..2 {
+                    let ti = rng.below(sheets.len() as u64) as usize;
+                    if needs_quote(&sheets[ti]) && !allow.contains("sheet-quoted") {
+                        continue;
+                    }
+                    let c = rng.range(1, W);
+                    let r1 = rng.range(1, H - 4);
+                    let a = CellRef { col: c, row: r1, lc: true, lr: true };
+                    let b = CellRef { col: c, row: r1 + rng.range(1, 4), lc: true, lr: true };
+                    series.push(Ast::Ref(Ref { sheet: Some(sheets[ti].clone()), kind: RefKind::Range(a, b) }));
+                }
+                if !series.is_empty() {
+                    let mut from = umya_spreadsheet::structs::drawing::spreadsheet::MarkerType::default();
+                    let mut to = umya_spreadsheet::structs::drawing::spreadsheet::MarkerType::default();
+                    from.set_coordinate("BA60");
+                    to.set_coordinate("BF70");
+                    let texts: Vec<String> = series.iter().map(render).collect();
+                    let mut chart = umya_spreadsheet::Chart::default();
+                    chart.new_chart(umya_spreadsheet::ChartType::LineChart, from, to, texts.iter().map(|s| s.as_str()).collect());
+                    book.get_sheet_mut(&si).unwrap().add_chart(chart);
+                    charts.push((si, series));
+                }
             }
         });
         if let Err(e) = setup {
@@ -219,6 +247,12 @@ pub fn run(args: &Args) {
                     }
                 }
             }
+            for (csi, series) in charts.iter_mut() {
+                let own = sheets[*csi].clone();
+                for a in series.iter_mut() {
+                    *a = shift_ast(a, &own, &edited, &e);
+                }
+            }
             names.retain(|nm| !render(&nm.ast).contains("#REF!"));
             for nm in names.iter_mut() {
                 let own = sheets[nm.sheet].clone();
@@ -248,6 +282,31 @@ pub fn run(args: &Args) {
                     break 'edits;
                 }
             }
+            for (csi, series) in charts.iter() {
+                let got: Result<Vec<String>, String> = guard(|| {
+                    let ws = book.get_sheet_mut(csi).unwrap();
+                    match ws.get_chart_collection_mut().get_mut(0) {
+                        Some(ch) => ch.get_area_chart_series_list_mut().get_area_chart_series().iter().map(|s| s.get_values().map(|v| v.get_number_reference().get_formula().get_address_str()).unwrap_or_default()).collect(),
+                        None => vec!["<chart missing>".to_string()],
+                    }
+                });
+                for (j, a) in series.iter().enumerate() {
+                    o.observations += 1;
+                    o.count("chart-series-observations", 1);
+                    let exp = render(a);
+                    if exp.contains("#REF!") {
+                        continue; // a series whose whole range was removed: any non-designating outcome is accepted
+                    }
+                    let g = match &got {
+                        Ok(v) => v.get(j).cloned().unwrap_or_else(|| "<series missing>".into()),
+                        Err(err) => format!("<observer panic {}>", err),
+                    };
+                    if canon_qualified(&g) != canon_qualified(&exp) {
+                        o.div(format!("chart-series:{}", desc.split(' ').next().unwrap()), format!("series {} of the chart on {} after {}: expected {:?} got {:?}; history {:?}", j, sheets[*csi], desc, exp, g, hist));
+                        break 'edits;
+                    }
+                }
+            }
             for nm in names.iter() {
                 o.observations += 1;
                 o.count("defined-name-observations", 1);
@@ -268,6 +327,7 @@ pub fn run(args: &Args) {
             }
         }
         let _ = &names;
+        o.count("charts", charts.len() as u64);
         for f in feats_edit {
             o.feat(f);
         }
